@@ -229,7 +229,7 @@ def gen_edits(rng, rewraps, nv, faces, cells):
     nv = max(nv, 1)
     has_cells, has_faces = bool(cells), bool(faces)
     for _ in range(rewraps):
-        kind = rng.choice(["none", "none", "none", "clears", "volume", "surface", "save", "edge"])
+        kind = rng.choice(["none", "none", "none", "clears", "volume", "surface", "save", "edge", "faces-noclear"])
         es = []
         if kind == "clears":
             es = [e for e in CLEAR3 if rng.random() < 0.6]
@@ -261,6 +261,19 @@ def gen_edits(rng, rewraps, nv, faces, cells):
                     f = rng.sample(range(nv), ar) if nv >= ar else [rng.randrange(nv) for _ in range(ar)]
                     es.append(["add_face", f] if t == "add" else ["set_face", rng.randrange(8), f])
             has_faces = True
+        elif kind == "faces-noclear":
+            # faces appended (or the last one removed) WITHOUT clearing face_corners: prepare() must notice by the count
+            for _ in range(rng.randint(1, 2)):
+                t = rng.choice(["add", "add", "vertex", "pop"])
+                if t == "vertex":
+                    es.append(["add_vertex", [rng.randint(0, 3), rng.randint(0, 3), 0]])
+                    nv += 1
+                elif t == "pop" and not has_cells:
+                    es.append(["pop_face"])
+                else:
+                    ar = rng.choice([3, 3, 4])
+                    es.append(["add_face", rng.sample(range(nv), ar) if nv >= ar else [rng.randrange(nv) for _ in range(ar)]])
+                    has_faces = True
         elif kind == "save":
             w = rng.choice(["edges", "faces", "cells"])
             es = {"edges": [["clear_edges"]], "faces": [["clear_faces"], ["clear_fc"]],
